@@ -39,6 +39,10 @@ Rule(e, pre, post) ==
                              /\ SlotSame(pre, R("src"), post, R("src"), 1..5)
                              /\ \A i \in 1..5 : Cell(post, R("src"), i) = Cell(pre, R("src"), i)
                              /\ \A w \in News : Dig(post, w, 4) = Dig(pre, R("src"), 4) /\ Dig(post, w, 5) = Dig(pre, R("src"), 5)
+      [] e.op = "SplitTs" -> /\ Fresh(pre, post, News) /\ FrameExcept(pre, post, {}) /\ OnlyNew(pre, post, News)
+                             /\ \A w \in News : Dig(post, w, 2) = Dig(pre, R("src"), 2)          \* same time step
+      [] e.op = "InPlaceTs" -> /\ FrameExcept(pre, post, {R("o")}) /\ OnlyNew(pre, post, {})
+                               /\ Dig(post, R("o"), 2) = Dig(pre, R("o"), 2)
       [] e.op = "InPlace" -> /\ FrameExcept(pre, post, {R("o")}) /\ OnlyNew(pre, post, {})
                              /\ Dig(post, R("o"), 4) = Dig(pre, R("o"), 4)
                              /\ (e.what = "orient" => Dig(post, R("o"), 3) = Dig(pre, R("o"), 3))
